@@ -120,9 +120,15 @@ def run_batch(args) -> dict:
     for k, rec in sorted(new_keys.items()):
         mins, mctx, execs = minimise(mod, rec["choices"], k, rec["cfg"], budget_s=per_key_budget)
         if mins is None:
-            out["harness_errors"].append(
-                {"run_seed": rec["run_seed"], "error": f"violation {k} did not reproduce in-process",
-                 "choices": rec["choices"][:2000]})
+            # the same choices give another verdict now that more runs have happened in this interpreter: the verdict
+            # depends on the runs before it.  Handed to the driver as a batch-prefix candidate (replayed from a fresh
+            # interpreter: runs 0..r of this batch in order).
+            v0 = rec["v"]
+            out["violations"].append({
+                "key": k, "property": args.prop, "clause": v0["clause"], "cls": v0["cls"], "detail": v0["detail"],
+                "run_seed": rec["run_seed"], "count": rec["count"], "choices": rec["choices"], "orig_len": len(rec["choices"]),
+                "min_execs": 0, "log_digest": None, "trace": [], "profile": None, "cfg": rec["cfg"], "all_keys": [k],
+                "r": rec["r"], "prefix_only": True})
             continue
         v = next(x for x in mctx.violations if x["key"] == k)
         out["violations"].append({
@@ -130,7 +136,7 @@ def run_batch(args) -> dict:
             "detail": v["detail"], "run_seed": rec["run_seed"], "count": rec["count"],
             "choices": mins, "orig_len": len(rec["choices"]), "min_execs": execs,
             "log_digest": mctx.log_digest(), "trace": mctx.events, "profile": mctx.profile, "cfg": rec["cfg"],
-            "all_keys": mctx.keys(),
+            "all_keys": mctx.keys(), "r": rec["r"],
         })
     out["distinct"] = len(digests)
     out["distinct_nontrivial_digests"] = sorted(nontrivial) if len(nontrivial) <= 200000 else None
@@ -165,6 +171,18 @@ def run_replay(args) -> dict:
         differs = (again.log_digest(), sorted(again.keys())) != first
         return {"replay": args.replay, "keys": [rp["key"]] if differs else [], "expected_key": rp["key"], "reproduced": differs,
                 "log_digest": again.log_digest(), "expected_digest": rp.get("log_digest"), "violations": [], "trace": again.events[-20:]}
+    if rp.get("kind") == "batch-prefix":
+        # the violation shows in run `runs[-1]` of the batch only after the listed earlier runs have happened in the
+        # same interpreter (state kept across independent histories)
+        base = {k: v for k, v in (rp.get("cfg") or {"tier": rp.get("tier", "quick")}).items() if k != "run_index"}
+        bs = rp["batch_seed"]
+        c = None
+        for r in rp["runs"]:
+            c = execute(mod, Choices(seed=H(bs, r)), dict(base, run_index=r))
+        keys = c.keys()
+        return {"replay": args.replay, "keys": keys, "expected_key": rp["key"], "reproduced": rp["key"] in keys,
+                "log_digest": c.log_digest(), "expected_digest": rp.get("log_digest"), "violations": c.violations,
+                "trace": c.events[-40:]}
     cfg = dict(rp.get("cfg") or {"tier": rp.get("tier", "quick")}, replay=True)
     ctx = execute(mod, Choices(replay=list(rp["choices"])), cfg)
     keys = ctx.keys()
